@@ -25,6 +25,7 @@ import (
 	"fmt"
 	"io"
 	"net/http"
+	"net/url"
 	"strconv"
 	"strings"
 	"time"
@@ -605,6 +606,10 @@ func (s *S3Proxy) UploadPart(ctx context.Context, input *s3.UploadPartInput) (*s
 }
 
 func (s *S3Proxy) UploadPartCopy(ctx context.Context, input *s3.UploadPartCopyInput) (s3response.CopyPartResult, error) {
+	if input.CopySource != nil {
+		cs := encodeCopySource(*input.CopySource)
+		input.CopySource = &cs
+	}
 	if input.CopySourceIfMatch != nil && *input.CopySourceIfMatch == "" {
 		input.CopySourceIfMatch = nil
 	}
@@ -998,7 +1003,27 @@ func (s *S3Proxy) GetObjectAttributes(ctx context.Context, input *s3.GetObjectAt
 	}, handleError(err)
 }
 
+// encodeCopySource URL-encodes a copy source (bucket/key[?versionId=id])
+// for the SDK, which sends it as given: the gateway has decoded the client's
+// header, and a key with '+' or '%' would otherwise name another object at
+// the backend.
+func encodeCopySource(cs string) string {
+	src, version := cs, ""
+	if i := strings.LastIndex(cs, "?versionId="); i != -1 {
+		src, version = cs[:i], cs[i:]
+	}
+	parts := strings.Split(src, "/")
+	for i, p := range parts {
+		parts[i] = strings.ReplaceAll(url.QueryEscape(p), "+", "%20")
+	}
+	return strings.Join(parts, "/") + version
+}
+
 func (s *S3Proxy) CopyObject(ctx context.Context, input s3response.CopyObjectInput) (*s3.CopyObjectOutput, error) {
+	if input.CopySource != nil {
+		cs := encodeCopySource(*input.CopySource)
+		input.CopySource = &cs
+	}
 	if input.CacheControl != nil && *input.CacheControl == "" {
 		input.CacheControl = nil
 	}
